@@ -58,8 +58,12 @@ def _array_cap(prog, g, e, env):
 def scan(prog):
     """All candidate sites with their current verdict: list of dicts {id, fn, loc, kind, text, proved, detail}."""
     out = []
+    cover = {}
+    mem_cover = {}       # block writes seen before the first indexed access of the same array
     for f in prog.functions.values():
-        if not _in_scope(f):
+        kernel = f.file.startswith("src/") and f.file.startswith(KERNEL_PREFIXES) and bool(f.blocks) and \
+            not f.file.startswith(("src/bench", "src/tests", "src/testrand", "src/unit_test", "src/ctime", "src/precompute"))
+        if not _in_scope(f) and not kernel:
             continue
         g = None
         seen_ids = {}
@@ -70,6 +74,13 @@ def scan(prog):
             cands = []
             for x in walk(el.e):
                 k = kind(x)
+                if kernel:
+                    # arithmetic kernels: only the coverage of limb / word loops is looked at
+                    if k == "index":
+                        b = strip(x[1])
+                        if kind(b) == "decay" and b[4] and int_val(x[2]) is None:
+                            cands.append(("idx", x))
+                    continue
                 if k == "call" and callee_name(x) in ("memcpy", "memset", "memmove") and len(x[3]) == 3:
                     cands.append(("mem", x))
                 elif k == "call" and callee_name(x) in ("memcmp", "secp256k1_memcmp_var") and len(x[3]) == 3:
@@ -126,6 +137,18 @@ def scan(prog):
                         cap, desc = _array_cap(prog, g, arg, env)
                         if desc is None:
                             continue
+                        if which == "dst" and cap is not None and ln[1] != INF and ln[0] == ln[1] and ln[1] > 0:
+                            # a block write covers the elements it spans (a zeroing loop replaced by memset keeps the coverage)
+                            dn = [y for y in walk(arg) if kind(y) == "decay" and y[2]]
+                            if dn and dn[0][3]:
+                                es, total = dn[0][3], dn[0][2]
+                                o0 = (total - cap) // es
+                                o1 = (total - cap + ln[1] - 1) // es
+                                cv = cover.get((f.name, desc))
+                                if cv is None:
+                                    mem_cover.setdefault((f.name, desc), []).append((o0, o1))
+                                elif cv[1] is not None:
+                                    cv[1], cv[2] = min(cv[1], o0), max(cv[2], o1)
                         idb = "R-CAP:%s:%s:%s(%s)" % (f.name, callee_name(x), which, desc)
                         text = "%s: length %s must not exceed the remaining capacity of %s" % (callee_name(x), show(x[3][2]), desc)
                         if cap is None:
@@ -140,6 +163,15 @@ def scan(prog):
                     iv = g.ev(x[2], env)
                     idb = "R-CAP:%s:index:%s" % (f.name, show(b[1]))
                     text = "index %s into %s[%d] must be within bounds" % (show(x[2]), show(b[1]), b[4])
+                    inb = not (iv[1] == INF or iv[0] == -INF) and iv[0] >= 0 and iv[1] <= b[4] - 1
+                    if inb:
+                        cv = cover.setdefault((f.name, show(b[1])), [b[4], iv[0], iv[1], el.loc])
+                        if cv[1] is not None:
+                            cv[1], cv[2] = min(cv[1], iv[0]), max(cv[2], iv[1])
+                    else:
+                        cover[(f.name, show(b[1]))] = [b[4], None, None, el.loc]      # an access the intervals cannot place: no coverage claim
+                    if kernel:
+                        continue
                     if iv[1] == INF or iv[0] == -INF:
                         add(idb, el.loc, "idx", text, None, "index %s not bounded by intervals" % fmt(iv))
                     else:
@@ -162,6 +194,24 @@ def scan(prog):
                         add(idb, el.loc, "shift", text, None, "amount %s not bounded by intervals" % fmt(iv))
                     else:
                         add(idb, el.loc, "shift", text, iv[0] >= 0 and iv[1] <= width - 1, "amount in %s" % fmt(iv))
+    # coverage: a loop that walks a fixed-size array (limbs of a field element, words of a scalar, bytes of a buffer) and
+    # covers all of it on the reviewed tree must keep covering all of it (hull of the index intervals of all accesses,
+    # constant-index accesses included): `while (i-- > 0)` started one short compares 4 of 5 limbs
+    for (fname, arr), (n, lo, hi, loc) in sorted(cover.items()):
+        if lo is None:
+            continue
+        for (o0, o1) in mem_cover.get((fname, arr), ()):
+            lo, hi = min(lo, o0), max(hi, o1)
+        f = prog.functions[fname]
+        for el in f.elems():
+            for x in walk(el.e):
+                if kind(x) == "index" and int_val(x[2]) is not None:
+                    b = strip(x[1])
+                    if kind(b) == "decay" and b[4] and show(b[1]) == arr:
+                        lo, hi = min(lo, int_val(x[2])), max(hi, int_val(x[2]))
+        out.append({"idbase": "R-CAP:%s:cover:%s" % (fname, arr), "fn": fname, "loc": loc, "kind": "cover",
+                    "text": "the accesses to %s[%d] in %s together cover every element" % (arr, n, fname),
+                    "proved": lo <= 0 and hi >= n - 1, "detail": "indexes used span %s of [0, %d]" % (fmt((lo, hi)), n - 1)})
     # number the sites of one (function, kind, base object) in source order
     def line_of(s):
         try:
